@@ -11,6 +11,7 @@ pub mod c08;
 pub mod c09;
 pub mod c10;
 pub mod c11;
+pub mod c12;
 pub mod collcheck;
 
 pub fn dispatch(ctx: &Ctx, replay: Option<&str>) -> i32 {
@@ -26,6 +27,7 @@ pub fn dispatch(ctx: &Ctx, replay: Option<&str>) -> i32 {
         "C09" => c09::run(ctx, replay),
         "C10" => c10::run(ctx, replay),
         "C11" => c11::run(ctx, replay),
+        "C12" => c12::run(ctx, replay),
         _ => {
             eprintln!("no check for property {}", ctx.prop);
             2
